@@ -5,4 +5,6 @@ From V Require Import C07.Model.
 Extraction "c07_model.ml" model_blob model_get_tx model_get_rc model_all_txs model_all_rcs model_hdr
   build_raw cbor_hdr_enc cbor_hdr_dec serialize parse get_tx get_rc get_pair all_txs all_rcs count to_int
   be64 be64_dec felt_bytes felt_dec bni_key bni_dec bucket_key block_txs_key num_key cbor_uint cbor_uint_dec
-  lex_lt has_prefix bytes_eqb bytes_ok.
+  lex_lt has_prefix bytes_eqb bytes_ok
+  encode decode decode_all wf_item item_ok ht to_item of_item marshal unmarshal unmarshal_first shape_ok has_type
+  shape_by_name shapes key_lt.
